@@ -123,7 +123,9 @@ func (k *astKit) tl(lit ordabs.Value, withOp, withIv bool) *ordabs.Rec {
 	return t
 }
 
-func c03DepGraph(c *core.Ctx) {
+func c03DepGraph(c *core.Ctx) { c03DepGraphRule(c, rC03Graph) }
+
+func c03DepGraphRule(c *core.Ctx, rC03Graph string) {
 	f := c.MustFunc(rC03Graph, "analysis", "makeDepGraph")
 	if f == nil {
 		return
